@@ -77,6 +77,15 @@ func (t *c11rt) RoundTrip(r *http.Request) (*http.Response, error) {
 			}
 			b, _ := json.Marshal(out)
 			return &http.Response{StatusCode: 200, Body: io.NopCloser(bytes.NewReader(b)), Header: http.Header{}}, nil
+		case "short":
+			// a well-formed answer without any error entry that is one element short
+			out := make([]map[string]interface{}, 0, len(reqs))
+			for _, q := range reqs[:len(reqs)-1] {
+				t.serial++
+				out = append(out, map[string]interface{}{"data": map[string]interface{}{"echo": q.Query, "serial": t.serial}})
+			}
+			b, _ := json.Marshal(out)
+			return &http.Response{StatusCode: 200, Body: io.NopCloser(bytes.NewReader(b)), Header: http.Header{}}, nil
 		case "status":
 			return &http.Response{StatusCode: 500, Body: io.NopCloser(strings.NewReader("boom")), Header: http.Header{}}, nil
 		case "status-validbody":
@@ -219,7 +228,7 @@ func c11Verdict(n, m int, rt *c11rt, res []map[string]interface{}, err error, re
 func init() {
 	Specs["C11"] = &Spec{
 		ID: "C11",
-		Rule: "scenario = (N requests, max batch size m, request identities {all distinct, all equal, repeating with period m (byte-equal chunks)}; the service numbers every request it executes; failure kind in {none, none with answers that spell out empty errors lists, transport error, transport error wrapping EOF (connection broke after the call arrived), transport error wrapping context.Canceled, status 500, 502 with a well-formed body, non-JSON body, GraphQL errors in the element, empty errors list with null data}, failing chunk); all completion orders of the concurrent chunk requests of the real MultiOpQueryer.Query are enumerated " +
+		Rule: "scenario = (N requests, max batch size m, request identities {all distinct, all equal, repeating with period m (byte-equal chunks)}; the service numbers every request it executes; failure kind in {none, none with answers that spell out empty errors lists, transport error, transport error wrapping EOF (connection broke after the call arrived), transport error wrapping context.Canceled, status 500, 502 with a well-formed body, non-JSON body, GraphQL errors in the element, empty errors list with null data, a well-formed answer one element short}, failing chunk); all completion orders of the concurrent chunk requests of the real MultiOpQueryer.Query are enumerated " +
 			"(all interleavings, state-cached, unbounded); outcome = verdict plus arrival order of the HTTP calls; non-trivial = >1 execution",
 		Assumptions: []string{
 			"the in-memory RoundTripper stands for the service; one scheduling point while the call is in flight",
@@ -263,7 +272,7 @@ func init() {
 					}
 					kinds := []string{"transport", "transport-eof", "transport-canceled"}
 					if n <= 4 || tier == "thorough" {
-						kinds = []string{"transport", "transport-eof", "transport-canceled", "status", "badjson", "status-validbody", "graphql-errors", "errors-empty-datanull"}
+						kinds = []string{"transport", "transport-eof", "transport-canceled", "status", "badjson", "status-validbody", "graphql-errors", "errors-empty-datanull", "short"}
 					}
 					for _, k := range kinds {
 						for c := 0; c < chunks; c++ {
